@@ -61,6 +61,31 @@ Definition py_len (c : pyval) : res nat :=
   | _ => Err TypeError
   end.
 
+(* int(str) on binary numbers: Lib/PyStr.py_int goes through unary nat, which cannot hold a timestamp.
+   Same grammar: surrounding white space, optional sign, ASCII digits with single underscores between digits;
+   a non-ASCII, non-space code point is outside the modelled fragment. *)
+Fixpoint digits_to_N (s : pystr) (acc : N) : option N :=
+  match s with
+  | [] => Some acc
+  | c :: r => if is_digit c then digits_to_N r (acc * 10 + (c - 48))%N else None
+  end.
+Definition py_int_z (s : pystr) : res Z :=
+  if existsb (fun c => (127 <? c)%N) s && negb (forallb (fun c => is_space c || (c <? 128)%N) s) then Unmodelled
+  else
+    let t := strip s in
+    let '(neg, body) := match t with
+                        | 45%N :: r => (true, r)
+                        | 43%N :: r => (false, r)
+                        | _ => (false, t)
+                        end in
+    match drop_underscores false body with
+    | Some (c :: ds) => match digits_to_N (c :: ds) 0%N with
+                        | Some n => Ok (if neg then - Z.of_N n else Z.of_N n)%Z
+                        | None => Err ValueError
+                        end
+    | _ => Err ValueError
+    end.
+
 (* ---- Message.from_dict / _add_value (sformat = "dict") ---- *)
 (* `val in ["", [""]]` : the parameter is skipped *)
 Definition is_blank (v : pyval) : bool :=
@@ -86,7 +111,7 @@ Definition coerce (t : ctype) (v : pyval) : res (option pyval) :=
               | VNone => Ok (Some VNone)
               | VBool _ => Err ValueError
               | VInt _ => Ok (Some v)
-              | VStr s => match py_int s with
+              | VStr s => match py_int_z s with
                           | Ok z => Ok (Some (VInt z))
                           | Err _ => Err ValueError
                           | Unmodelled => Unmodelled
@@ -175,9 +200,9 @@ Fixpoint to_dict_check (spec : list pspec) (d : dict) : res unit :=
   end.
 
 (* ---- the symbolic JWS and the key jar ---- *)
-Inductive kty := KRsa | KEc | KOct | KNoneT.
+Inductive kty := KRsa | KEc | KOct.
 Definition kty_eqb (a b : kty) : bool :=
-  match a, b with KRsa, KRsa | KEc, KEc | KOct, KOct | KNoneT, KNoneT => true | _, _ => false end.
+  match a, b with KRsa, KRsa | KEc, KEc | KOct, KOct => true | _, _ => false end.
 
 Record jar_entry := mkJE { je_owner : pystr; je_kty : kty; je_kid : pystr; je_key : nat }.
 Notation jar := (list jar_entry).
@@ -189,14 +214,16 @@ Record token := mkTok {
   t_claims : dict                (* JSON payload *)
 }.
 
-(* cryptojwt.jws.utils.alg2keytype on the algorithms in use; anything else is outside the fragment *)
+(* cryptojwt: SIGNER_ALGS membership (jws.factory returns None for any other alg: "not a signed JWT") and
+   jws.utils.alg2keytype.  The EC/OKP variants that are not generated are outside the fragment. *)
 Definition alg2kty (alg : pystr) : option kty :=
   if str_eqb alg (PS "RS256") || str_eqb alg (PS "RS384") || str_eqb alg (PS "RS512")
      || str_eqb alg (PS "PS256") || str_eqb alg (PS "PS384") || str_eqb alg (PS "PS512") then Some KRsa
   else if str_eqb alg (PS "ES256") || str_eqb alg (PS "ES384") || str_eqb alg (PS "ES512") then Some KEc
   else if str_eqb alg (PS "HS256") || str_eqb alg (PS "HS384") || str_eqb alg (PS "HS512") then Some KOct
-  else if str_eqb alg (PS "None") || str_eqb alg (PS "NONE") || str_eqb alg (PS "nonE") then Some KNoneT
   else None.
+Definition alg_unmodelled (alg : pystr) : bool :=
+  str_eqb alg (PS "ES256K") || str_eqb alg (PS "EdDSA") || str_eqb alg (PS "Ed25519") || str_eqb alg (PS "Ed448").
 
 (* the arguments of verify(kwargs) that matter *)
 Record kwargs := mkKw {
@@ -219,16 +246,20 @@ Definition jar_has_owner (j : jar) (o : pystr) : bool := existsb (fun e => str_e
 Definition owner_keys (j : jar) (o : pystr) (k : kty) : jar :=
   filter (fun e => str_eqb (je_owner e) o && kty_eqb (je_kty e) k) j.
 
+(* KeyJar.get_jwt_verify_keys: whose keys are looked up — the token's own iss claim if it is truthy,
+   otherwise the iss argument; Some [] = "no issuer, use my own keys"; None = outside the fragment *)
+Definition key_issuer (kw : kwargs) (t : token) : option pystr :=
+  match assoc (PS "iss") (t_claims t) with
+  | Some (VStr (c :: s)) => Some (c :: s)
+  | Some v => if py_truthy v then None else
+                match kw_iss kw with Some (c :: s) => Some (c :: s) | _ => Some [] end
+  | None => match kw_iss kw with Some (c :: s) => Some (c :: s) | _ => Some [] end
+  end.
+
 (* KeyJar.get_jwt_verify_keys + Message._gather_keys *)
 Definition gather_keys (kw : kwargs) (t : token) (k : kty) : res jar :=
   let j := kw_jar kw in
-  let raw := match assoc (PS "iss") (t_claims t) with
-             | Some (VStr (c :: s)) => Some (c :: s)
-             | Some v => if py_truthy v then None else
-                           match kw_iss kw with Some (c :: s) => Some (c :: s) | _ => Some [] end
-             | None => match kw_iss kw with Some (c :: s) => Some (c :: s) | _ => Some [] end
-             end in
-  match raw with
+  match key_issuer kw t with
   | None => Unmodelled            (* a truthy non-string iss reaches the key jar: outside the fragment *)
   | Some [] =>
       let ks := owner_keys j [] k in
@@ -273,6 +304,8 @@ Definition sig_accepted (kw : kwargs) (t : token) : res unit :=
   | None => Unmodelled
   | Some k => ks <- gather_keys kw t k ;; verify_compact kw t ks
   end.
+Definition is_jws_alg (alg : pystr) : bool :=
+  str_eqb alg (PS "none") || match alg2kty alg with Some _ => true | None => false end.
 
 (* ---- IdToken.verify (after the generic Message.verify) ---- *)
 Definition idtoken_checks (kw : kwargs) (d : dict) (now : Z) : res unit :=
@@ -325,6 +358,34 @@ Definition idtoken_checks (kw : kwargs) (d : dict) (now : Z) : res unit :=
 (* hash function name used for at_hash / c_hash: "HS" + alg[-3:] -> 256 / 384 / 512 *)
 Definition hash_bits (alg : pystr) : pystr := List.rev (firstn 3 (List.rev alg)).
 
+(* ---- the stages of verify_id_token that do not need the hash function ---- *)
+(* jws.factory: a compact JWS whose alg is in SIGNER_ALGS, else "not a signed JWT" *)
+Definition jws_gate (alg : pystr) : res unit :=
+  if alg_unmodelled alg then Unmodelled else if is_jws_alg alg then Ok tt else Err ValueError.
+
+(* alg == "none" only if sigalg == "none" was expected or allow_sign_alg_none; allowed_sign_alg equality.
+   Result: is the token signed *)
+Definition alg_policy (kw : kwargs) (alg : pystr) : res bool :=
+  if str_eqb alg (PS "none") then
+    if opt_str_eqb (kw_sigalg kw) (Some (PS "none")) then Ok false
+    else if kw_allow_none kw then Ok false else Err E_UnsupportedAlgorithm
+  else match kw_allowed_sign_alg kw with
+       | Some a => if str_eqb alg a then Ok true else Err E_UnsupportedAlgorithm
+       | None => Ok true
+       end.
+
+(* the iss claim of a signed token must name an issuer the key jar knows *)
+Definition issuer_known (kw : kwargs) (t : token) : res unit :=
+  match assoc (PS "iss") (t_claims t) with
+  | None => Err E_MissingRequiredAttribute
+  | Some (VStr s) => if jar_has_owner (kw_jar kw) s then Ok tt else Err ValueError
+  | Some (VList _) | Some (VDict _) | Some (VObj _) => Err TypeError
+  | Some _ => Err ValueError
+  end.
+
+Definition unmodelled_claims (d : dict) : res unit :=
+  if has_key (PS "error_description") d || has_key (PS "birthdate") d then Unmodelled else Ok tt.
+
 Section WithHash.
   (* left_hash(value, "HS<bits>") — supplied by the environment (hashlib); the theorems are parametric in it *)
   Variable lhash : pystr -> pystr -> pystr.
@@ -339,34 +400,24 @@ Section WithHash.
         end
     end.
 
+  Definition hash_checks (signed check_hash : bool) (d : dict) (alg : pystr) (code atok : option pystr) : res unit :=
+    if signed && check_hash then
+      _ <- hash_check d alg (PS "at_hash") atok E_AtHashError ;;
+      hash_check d alg (PS "c_hash") code E_CHashError
+    else Ok tt.
+
   (* verify_id_token(msg, check_hash, kwargs): returns the verified, typed claims *)
   Definition verify_id_token (kw : kwargs) (check_hash : bool) (code atok : option pystr) (t : token) (now : Z)
     : res dict :=
-    let alg := t_alg t in
-    signed <- (if str_eqb alg (PS "none") then
-                 if opt_str_eqb (kw_sigalg kw) (Some (PS "none")) then Ok false
-                 else if kw_allow_none kw then Ok false else Err E_UnsupportedAlgorithm
-               else match kw_allowed_sign_alg kw with
-                    | Some a => if str_eqb alg a then Ok true else Err E_UnsupportedAlgorithm
-                    | None => Ok true
-                    end) ;;
-    _ <- (if signed : bool then
-            match assoc (PS "iss") (t_claims t) with
-            | None => Err E_MissingRequiredAttribute
-            | Some (VStr s) => if jar_has_owner (kw_jar kw) s then Ok tt else Err ValueError
-            | Some (VList _) | Some (VDict _) | Some (VObj _) => Err TypeError
-            | Some _ => Err ValueError
-            end
-          else Ok tt) ;;
+    _ <- jws_gate (t_alg t) ;;
+    signed <- alg_policy kw (t_alg t) ;;
+    _ <- (if signed : bool then issuer_known kw t else Ok tt) ;;
     _ <- (if signed : bool then sig_accepted kw t else Ok tt) ;;
     d <- from_dict idtoken_params (t_claims t) [] ;;
     _ <- check_required idtoken_params d ;;
-    _ <- (if has_key (PS "error_description") d || has_key (PS "birthdate") d then Unmodelled else Ok tt) ;;
+    _ <- unmodelled_claims d ;;
     _ <- idtoken_checks kw d now ;;
-    _ <- (if signed && check_hash then
-            _ <- hash_check d alg (PS "at_hash") atok E_AtHashError ;;
-            hash_check d alg (PS "c_hash") code E_CHashError
-          else Ok tt) ;;
+    _ <- hash_checks signed check_hash d (t_alg t) code atok ;;
     _ <- to_dict_check idtoken_params d ;;
     Ok d.
 End WithHash.
